@@ -20,7 +20,7 @@ from mdsim.seams import pool as spool
 PROP = "C04"
 LEVEL = "exploration"
 TECHNIQUE = "deterministic simulation: seeded interleavings of global-RNG users / re-seeding library calls before the probe, across interpreter processes with simulator-chosen PYTHONHASHSEED; golden-run digest equality + filter reference model"
-RUNS = {"quick": 450, "thorough": 24000}
+RUNS = {"quick": 450, "thorough": 48000}
 HASHSEED_SLOTS = {"quick": 3, "thorough": 12}
 FRESH = {"quick": 8, "thorough": 32}
 JOB_TIMEOUT = 600.0
